@@ -72,6 +72,30 @@ theorem wireAnswer_fresh (now : Int) (r : Rec) (h : now < r.created + 500 * r.tt
     unfold Rec.remainingTtl; rw [remaining_ttl_eq _ _ _ (by omega)]
   simp [wireAnswer, hne, hrem]
 
+/-- with the query time handed over (`≠ 0`), the encoder's decision and TTL field are the specification's -/
+theorem wireAnswerAt_eq (now : Int) (hn : now ≠ 0) (r : Rec) : wireAnswerAt now r = wireAnswer now r := by
+  unfold wireAnswerAt wireAnswer
+  rw [answer_accepted_iff now hn, ttl_field_nonzero _ _ _ hn]
+  cases r.isExpired now <;> simp
+
+theorem filterMap_eq_map_of_some {α β : Type} (f : α → Option β) (g : α → β) :
+    ∀ (l : List α), (∀ x ∈ l, f x = some (g x)) → l.filterMap f = l.map g
+  | [], _ => rfl
+  | x :: t, h => by
+    rw [List.filterMap_cons, h x (by simp)]
+    simp only [List.map_cons]
+    rw [filterMap_eq_map_of_some f g t (fun y hy => h y (List.mem_cons_of_mem _ hy))]
+
+/-- what is emitted for the known answers of a question asked at `now ≠ 0`: every one of them, with its remaining TTL -/
+theorem wire_of_known (cache : List Rec) (name : String) (type cls : Nat) (now t : Int) (ht : t = now) (hn : now ≠ 0) :
+    (knownAnswers lower cache name type cls now).filterMap (wireAnswerAt t) =
+      (knownAnswers lower cache name type cls now).map (fun r => (r, ((r.created + 1000 * r.ttl - now) / 1000).toNat)) := by
+  subst ht
+  apply filterMap_eq_map_of_some
+  intro r hr
+  rw [wireAnswerAt_eq t hn]
+  exact wireAnswer_fresh t r ((mem_knownAnswers lower cache name type cls t r).1 hr).2.2.2.2
+
 /-! ### bucket grouping -/
 
 theorem place_perm (m : Nat) (it : Nat × QOut) (bs : List Bucket) :
@@ -169,5 +193,79 @@ theorem asks_regime (forced : Option Bool) : ∀ (es : List (Int × Nat)) (l : L
       rcases List.mem_cons.1 ha with rfl | ha
       · rfl
       · exact this.2 a ha
+
+/-! ### the periodic clean-up of the history (`async_expire`) never changes a suppression decision -/
+
+theorem question_beq_iff (p q : Question) : p.beq lower q = true ↔ p.specIdent lower = q.specIdent lower := by
+  simp [Question.beq, Gen.Ident.questionEq, Question.field, Question.specIdent]
+
+/-- the history is a dict: at most one entry per question -/
+def History.Keyed (h : History) : Prop := h.Pairwise (fun a b => a.q.beq lower b.q = false)
+
+theorem keyed_add {h : History} (hk : History.Keyed lower h) (q : Question) (now : Int) (known : List Rec) :
+    History.Keyed lower (h.add lower q now known) := by
+  unfold History.add History.Keyed
+  refine List.pairwise_cons.2 ⟨?_, List.Pairwise.sublist (List.filter_sublist) hk⟩
+  intro e he
+  have := (List.mem_filter.1 he).2
+  cases hb : q.beq lower e.q
+  · rfl
+  · exfalso
+    have h1 := (question_beq_iff lower q e.q).1 hb
+    have h2 : e.q.beq lower q = true := (question_beq_iff lower e.q q).2 h1.symm
+    simp [h2] at this
+
+theorem keyed_expire {h : History} (hk : History.Keyed lower h) (t : Int) : History.Keyed lower (h.expire t) :=
+  List.Pairwise.sublist (List.filter_sublist) hk
+
+theorem get_none_of_keyed {x : HEntry} {rest : History} (hk : History.Keyed lower (x :: rest)) {q : Question}
+    (hx : x.q.beq lower q = true) (l : History) (hl : ∀ e ∈ l, e ∈ rest) : History.get lower l q = none := by
+  unfold History.get
+  rw [List.find?_eq_none]
+  intro e he hb
+  have hxe := (List.pairwise_cons.1 hk).1 e (hl e he)
+  have h1 := (question_beq_iff lower x.q q).1 hx
+  have h2 := (question_beq_iff lower e.q q).1 (by simpa using hb)
+  have : x.q.beq lower e.q = true := (question_beq_iff lower x.q e.q).2 (h1.trans h2.symm)
+  rw [this] at hxe; cases hxe
+
+/-- **clean-up is invisible**: for a well-formed history, expiring at `t` (entries older than 999 ms at `t` are deleted) leaves
+every later suppression decision unchanged -/
+theorem suppresses_expire {h : History} (hk : History.Keyed lower h) (t now : Int) (ht : t ≤ now) (q : Question) (known : List Rec) :
+    (h.expire t).suppresses lower q now known = h.suppresses lower q now known := by
+  induction h with
+  | nil => rfl
+  | cons x rest ih =>
+    have hkr : History.Keyed lower rest := (List.pairwise_cons.1 hk).2
+    by_cases hx : x.q.beq lower q = true
+    · -- the entry of `q` is the head
+      have hget : History.get lower (x :: rest) q = some x := by simp [History.get, List.find?_cons, hx]
+      by_cases hold : Gen.History.expire_old t x.time = true
+      · -- deleted: it was already too old to suppress anything at `now ≥ t`
+        have h1 : History.expire (x :: rest) t = History.expire rest t := by simp [History.expire, List.filter_cons, hold]
+        have h2 : History.get lower (History.expire rest t) q = none :=
+          get_none_of_keyed lower hk hx _ (fun e he => (List.mem_filter.1 he).1)
+        have h3 := (expire_old_iff _ _).1 hold
+        have h4 : Gen.History.too_old now x.time = true := (too_old_iff _ _).2 (by omega)
+        unfold History.suppresses
+        rw [h1, h2, hget]
+        simp [h4]
+      · have h1 : History.expire (x :: rest) t = x :: History.expire rest t := by simp [History.expire, List.filter_cons, hold]
+        have hget' : History.get lower (x :: History.expire rest t) q = some x := by simp [History.get, List.find?_cons, hx]
+        unfold History.suppresses
+        rw [h1, hget', hget]
+    · have hx' : x.q.beq lower q = false := by simpa using hx
+      have hget : History.get lower (x :: rest) q = History.get lower rest q := by simp [History.get, List.find?_cons, hx']
+      have hsup : History.suppresses lower (x :: rest) q now known = History.suppresses lower rest q now known := by
+        unfold History.suppresses; rw [hget]
+      rw [hsup, ← ih hkr]
+      by_cases hold : Gen.History.expire_old t x.time = true
+      · have h1 : History.expire (x :: rest) t = History.expire rest t := by simp [History.expire, List.filter_cons, hold]
+        rw [h1]
+      · have h1 : History.expire (x :: rest) t = x :: History.expire rest t := by simp [History.expire, List.filter_cons, hold]
+        have hget' : History.get lower (x :: History.expire rest t) q = History.get lower (History.expire rest t) q := by
+          simp [History.get, List.find?_cons, hx']
+        unfold History.suppresses
+        rw [h1, hget']
 
 end Zc.QueryGen
